@@ -9,7 +9,7 @@ d=$(mktemp -d /tmp/verifneu.XXXXXX); vd=$(mktemp -d /tmp/verifneuv.XXXXXX)
 trap 'rm -rf "$d" "$vd"' EXIT
 rsync -a --exclude .git /repo/ "$d/"
 (cd "$d" && patch -p1 -s < "$diff") || { echo "PATCH-FAILED" > "$outf"; exit 3; }
-(cd "$d" && go build ./...) || { echo "BUILD-FAILED" > "$outf"; exit 3; }
+(cd "$d" && go build -trimpath ./...) || { echo "BUILD-FAILED" > "$outf"; exit 3; }
 cp /verif/known_findings.jsonl "$vd/"; mkdir -p "$vd/sa" && ln -s /verif/sa/testdata "$vd/sa/testdata"
 : > "$outf"
 for p in $props; do
